@@ -242,6 +242,29 @@ class C02(Prop):
         return out
 
 
+def embed_tableau(small, r_small, n, signs=None):
+    """a small tableau (2k rows, tableau order, its first r_small stabilizers standby) placed on the LAST k qubits of an
+    n-qubit register.  signs=None: the other qubits are maximally mixed, r = n - k + r_small.  signs = list of n-k
+    bits: the other qubits are in the computational basis state with those bits (stabilizers (-1)^b Z_q), r = r_small.
+    Returns (rows, r).  (pure placement of letters; no Pauli algebra)"""
+    k = len(small) // 2
+    pad = n - k
+
+    def z(q, l, ph=0):
+        w = [0] * n + [ph]
+        w[q] = l
+        return w
+    sm = [[0] * pad + w[:-1] + [w[-1]] for w in small]
+    if signs is None:
+        stab = [z(q, 3) for q in range(pad)] + sm[:k]
+        dest = [z(q, 1) for q in range(pad)] + sm[k:]
+        return stab + dest, pad + r_small
+    # standby rows first, then the active ones
+    stab = sm[:r_small] + [z(q, 3, 2 * signs[q]) for q in range(pad)] + sm[r_small:k]
+    dest = sm[k:k + r_small] + [z(q, 1) for q in range(pad)] + sm[k + r_small:]
+    return stab + dest, r_small
+
+
 def ins_to_state(mapws):
     """tableau order of a map: Z-images (stabilizers) first, then X-images (destabilizers)"""
     n = len(mapws) // 2
